@@ -18,7 +18,7 @@ from . import pools, tlaval, core_model, core_real, core_replay, evidence, findi
 VERIF = os.path.dirname(os.path.dirname(os.path.abspath(__file__)))
 
 # repairs present in /repo (fix: commits); the specification's clauses for them are switched on
-FIXES = ['F1', 'F2', 'F4', 'F5', 'F6', 'F7', 'F8', 'F9', 'F10', 'F11', 'F12', 'F13', 'F15', 'F16', 'F17']
+FIXES = ['F1', 'F2', 'F4', 'F5', 'F6', 'F7', 'F8', 'F9', 'F10', 'F11', 'F12', 'F13', 'F13b', 'F15', 'F16', 'F17']
 
 REENTRANT_HOOKS = ['step', 'L_running', 'L_waiting', 'L_paused', 'L_played', 'L_output']
 
